@@ -1230,7 +1230,9 @@ class Pool:
                         proc = cleaned.get(acked_by_gone)
                         if proc and getattr(proc, '_job_terminated', False):
                             job._set_terminated(exitcode)
-                        else:
+                        elif not job._worker_lost:
+                            # (a loss already noticed keeps its time
+                            # and exit status)
                             self.on_job_process_lost(
                                 job, acked_by_gone, exitcode,
                             )
